@@ -1,0 +1,17 @@
+//go:build verif
+
+// Contracts for cmd/omniwitness, checked by /verif/govc (see /verif/DESIGN.md, C05/C06).
+// This file contains no code: only structured //@ comments keyed by function.
+
+package main
+
+// The SQL store is built on a handle whose pool holds exactly one connection (what the isolation argument of C05 and the
+// "no transaction left open, or the next operation blocks" clause of C07 assume), and the store that was built is the one
+// the witness runs on.
+//@ func main
+//@   modifies heap, maxconns
+//@   atcall[C05.pool,C06.pool,C07.pool] NewPersistence@1: maxconns[$arg1] == 1
+//@   atcall[C05.pool,C06.pool] Main: $arg3 == p
+//@   // the database is opened with the sqlite3 driver on exactly the configured file name: nothing (no journal or
+//@   // synchronous pragma that would weaken atomic durable commits) is added to the data source name
+//@   atcall[C06.dsn] Open: $arg1 == "sqlite3" && $arg2 == deref(dbFile)
